@@ -29,6 +29,7 @@ One(p, b) == IF b < 128 THEN b
              ELSE IF IsDB(p) THEN DontCare            \* a lone high byte in a double-byte page
              ELSE SBHigh[p][b - 127]
 DBLookup(p, lead, trail) ==
+  IF UseTable THEN (IF trail \in 64..254 THEN DBTable[p][(lead - 129) * 191 + (trail - 64) + 1] ELSE DontCare) ELSE
   LET hits == {i \in 1..Len(DBPairs[p]) : DBPairs[p][i][1] = lead /\ DBPairs[p][i][2] = trail} IN
   IF hits = {} THEN DontCare ELSE DBPairs[p][CHOOSE i \in hits : TRUE][3]
 
@@ -46,6 +47,7 @@ CpDecode(bs) == Dec(bs, "L")
 \* every code point some page can express (as far as the tables of this module know)
 Repertoire == (0..127) \cup UNION {{SBHigh[p][i] : i \in 1..128} : p \in SBPages}
               \cup UNION {{DBPairs[p][i][3] : i \in 1..Len(DBPairs[p])} : p \in DBPages}
+              \cup (IF UseTable THEN UNION {{DBTable[p][i] : i \in 1..Len(DBTable[p])} : p \in DBPages} \ {-1} ELSE {})
 Subst(s, known) == [i \in 1..Len(s) |-> IF s[i] \in known THEN s[i] ELSE 63]      \* '?' for what no page has
 \* equal up to don't-care positions of the decoded side
 Matches(decoded, want) == Len(decoded) = Len(want) /\ \A i \in 1..Len(want) : decoded[i] = DontCare \/ decoded[i] = want[i]
